@@ -385,7 +385,10 @@ func runC05(tr *Trace, sc *Script, rec *Recorder, scratch string) *Violation {
 		}
 	}
 
-	otherForkStreak := 0
+	// other-fork answers since the store last received a block: the downloader asks for the whole range again after
+	// each of them and gives up (range treated as empty) after MaxRetryCountBlockHashMismatch = 5 in a row for one
+	// range; answers to other requests in between (the range's logs, headers of earlier blocks) do not reset that
+	otherForkStreak, deliveredAtStreak := 0, 0
 	apply := func(op Op) {
 		steps++
 		rec.Stats.Inc("steps")
@@ -426,6 +429,11 @@ func runC05(tr *Trace, sc *Script, rec *Recorder, scratch string) *Violation {
 				// so often in a row that its bounded retry gives up (a persistently inconsistent RPC is not a fault
 				// a node can be expected to survive)
 				ok := false
+				proc.mu.Lock()
+				if len(proc.delivered) != deliveredAtStreak {
+					otherForkStreak, deliveredAtStreak = 0, len(proc.delivered)
+				}
+				proc.mu.Unlock()
 				if p.label == "dl" && p.method == "HeaderByNumber" && p.desc[0] >= '0' && p.desc[0] <= '9' && otherForkStreak < 2 {
 					var n uint64
 					fmt.Sscan(p.desc, &n)
@@ -437,12 +445,8 @@ func runC05(tr *Trace, sc *Script, rec *Recorder, scratch string) *Violation {
 					mode = replyTransient
 				}
 			}
-			if p.label == "dl" && p.method == "HeaderByNumber" {
-				if mode == replyOtherFork {
-					otherForkStreak++
-				} else {
-					otherForkStreak = 0
-				}
+			if p.label == "dl" && p.method == "HeaderByNumber" && mode == replyOtherFork {
+				otherForkStreak++
 			}
 			if mode != replyOK {
 				rec.Stats.Inc(fmt.Sprintf("rpc_fault_%d_%s", mode, p.method))
